@@ -49,6 +49,7 @@ func addKitchenResources(s *Schema) {
 		finder("byTags", false, nil, F("tags", arrStr), Opt("limit", i32), F("filter", R(q("Leaf")))),
 		action("ping", false, &str),
 		action("sum", false, &i64, F("a", i32), F("b", i64), Opt("note", str)),
+		action("scale", false, &i64, F("v", i64), Def("factor", i32, "2"), OptDef("unit", str, `"x"`)),
 		action("touch", true, nil, Opt("note", str)),
 		action("describe", true, &thing, F("verbose", P("bool"))),
 		action("names", false, &arrStr),
